@@ -146,6 +146,19 @@ func build(work string, race bool) (string, error) {
 	return bin, nil
 }
 
+// buildView compiles /repo's tools/view next to the child binary.
+func buildView(work string) {
+	args := []string{"build"}
+	if _, err := os.Stat(filepath.Join(work, "go.mod")); err == nil && os.Getenv("VERIF_REPO") != "" {
+		args = append(args, "-modfile="+filepath.Join(work, "go.mod"))
+	}
+	args = append(args, "-o", filepath.Join(work, "view"), "github.com/cbehopkins/gkvlite/tools/view")
+	cmd := exec.Command("go", args...)
+	cmd.Dir = verifDir
+	cmd.Env = goEnv()
+	cmd.Run()
+}
+
 func loadKnown() []Known {
 	var res []Known
 	f, err := os.Open(filepath.Join(verifDir, "known_findings.jsonl"))
@@ -190,6 +203,9 @@ func run(id, tier string, seed uint64, jobs int, keep bool) int {
 	if err != nil {
 		fmt.Fprintln(os.Stderr, err)
 		return inconclusive("build-failed")
+	}
+	if id == "C09" {
+		buildView(work) // tools/view for the syscall-level cross-check (best effort)
 	}
 	// metadata from the child itself
 	mo, err := exec.Command(bin, "-p", id, "-tier", tier, "-meta").Output()
